@@ -3,6 +3,7 @@ package main
 import (
 	"fmt"
 	"go/token"
+	"strings"
 
 	"golang.org/x/tools/go/ssa"
 )
@@ -94,7 +95,7 @@ func dencoStructural(c *Ctx, r2, r3, r4, r5 string) {
 			nUsedTest++
 		}
 	}
-	c.obF(r2, fb, "used-bases-skipped", nUsedTest >= 1, "findBase consults usedBase before choosing a base", "")
+	c.obRF(r2, fb, "used-bases-skipped", nUsedTest >= 1, "findBase consults usedBase before choosing a base", "")
 	rb := p.Fn("(*rt/middleware/denco.Router).Build")
 	mr := callsIn(rb, "rt/middleware/denco.makeRecords")
 	okStatic := false
@@ -127,7 +128,19 @@ func dencoStructural(c *Ctx, r2, r3, r4, r5 string) {
 	mk := p.Fn("rt/middleware/denco.makeRecords")
 	// records classified by the three parameter markers; termination byte appended to parameterised keys
 	nContains := len(callsIn(mk, "strings.Contains"))
-	c.obF(r2, mk, "classification", nContains == 3, "records are parameterised iff their key contains '/:', '/*' or '=:'", fmt.Sprintf("%d marker tests", nContains))
+	c.obRF(r2, mk, "classification", nContains == 3, "records are parameterised iff their key contains '/:', '/*' or '=:'", fmt.Sprintf("%d marker tests", nContains))
+	// whatever the shape of the test: a record's key is classified by nothing but strings.Contains on two-byte markers
+	// made of a separator and a parameter character (a ':' or '*' inside a literal segment does not make a pattern)
+	for _, ci := range allCalls(mk) {
+		n := calleeName(ci.Common())
+		if !strings.HasPrefix(n, "strings.") || len(ci.Common().Args) == 0 {
+			continue
+		}
+		if !vFieldLoadO("rt/middleware/denco.Record", "Key")(ci.Common().Args[0]) && !vFieldLoad("rt/middleware/denco.Record", "Key", nil)(ci.Common().Args[0]) {
+			continue
+		}
+		c.obI(r2, ci, "classified-by-marker-containment", n == "strings.Contains", "a record is classified as parameterised by containment of a separator+parameter marker only", "the key is classified through "+n)
+	}
 
 	// R05.3
 	mb := p.Fn("(*rt/middleware/denco.Mux).Build")
@@ -161,7 +174,7 @@ func dencoStructural(c *Ctx, r2, r3, r4, r5 string) {
 		nCmp++
 		c.obI(r4, bo, "separator-set", k == '/' || k == '#', "a single-segment parameter ends only at '/' or at the termination byte", fmt.Sprintf("stops at byte %q", rune(k)))
 	}
-	c.obF(r4, ns, "separator-tests", nCmp == 2, "NextSeparator tests exactly the two terminators", fmt.Sprintf("%d byte comparisons", nCmp))
+	c.obRF(r4, ns, "separator-tests", nCmp == 2, "NextSeparator tests exactly the two terminators", fmt.Sprintf("%d byte comparisons", nCmp))
 	for _, r := range returnsOf(ns) {
 		b := &bctx{c: c, fn: ns, assumeLE: map[[2]*ssa.Parameter]bool{{ns.Params[1], ns.Params[0]}: true}, assumeNonNeg: map[*ssa.Parameter]bool{ns.Params[1]: true}, assumeLT: map[ltAssume]bool{}}
 		okLE := b.le(r.Results[0], ns.Params[0], r, visit{})
@@ -174,7 +187,24 @@ func dencoStructural(c *Ctx, r2, r3, r4, r5 string) {
 	single := callsIn(lk, "(rt/middleware/denco.baseCheck).IsSingleParam")
 	wild := callsIn(lk, "(rt/middleware/denco.baseCheck).IsWildcardParam")
 	anyp := callsIn(lk, "(rt/middleware/denco.baseCheck).IsAnyParam")
-	c.obF(r5, lk, "param-kinds", len(single) == 1 && len(wild) == 1 && len(anyp) == 1, "lookup distinguishes single and wildcard parameter nodes", fmt.Sprintf("%d/%d/%d", len(single), len(wild), len(anyp)))
+	// a failed single-parameter attempt never ends the search: the recursive attempt's result is returned only when it
+	// found something (every other candidate — the wildcard of the same node, shallower nodes — is still to be tried)
+	for _, ci := range callsIn(lk, "(*rt/middleware/denco.doubleArray).lookup") {
+		rc, ok := ci.(*ssa.Call)
+		if !ok {
+			continue
+		}
+		found := resultOf(rc, 2)
+		for _, r := range realReturns(lk) {
+			if !pathExists(lk, rc, r, nil, nil) {
+				continue
+			}
+			if okO, _ := allOrigins(resOf(r, 2), oIsValue(found)); okO && found != nil {
+				c.obI(r5, r, "failed-attempt-continues", guardedBy(r, rc, factBool(vIs(found), true)), "the result of the recursive single-parameter attempt is returned only when it succeeded; otherwise the search goes on with the remaining candidates", "a failed attempt can be returned as the final answer")
+			}
+		}
+	}
+	c.obRF(r5, lk, "param-kinds", len(single) == 1 && len(wild) == 1 && len(anyp) == 1, "lookup distinguishes single and wildcard parameter nodes", fmt.Sprintf("%d/%d/%d", len(single), len(wild), len(anyp)))
 	if len(single) == 1 && len(wild) == 1 {
 		// natural loop containing the IsSingleParam test: every path from the test back to the loop header passes the wildcard test
 		sb := single[0].Block()
